@@ -14,6 +14,8 @@ import ScyllaVerif.Proofs.CustomFuel
 import ScyllaVerif.Proofs.C08Nest
 import ScyllaVerif.Proofs.C08HeaderNP
 import ScyllaVerif.Proofs.C08Lending
+import ScyllaVerif.Proofs.C08BodyRead
+import ScyllaVerif.Generated.Tables
 
 namespace ScyllaVerif.Props.C08
 open ScyllaVerif.C08
@@ -257,12 +259,41 @@ private theorem parseFrame_body_le (bs : Bytes) (h : Header) (hp : parseFrame bs
         · simp at hp
         · split at hp
           · simp at hp
-          · split at hp
-            · simp at hp
-            · injection hp with hp
-              subst hp
-              simp only [List.length_take, List.length_drop, HEADER_SIZE]
-              omega
+          · injection hp with hp
+            subst hp
+            simp only [List.length_take, List.length_drop, HEADER_SIZE]
+            omega
+
+/-! ### `read_response_frame` itself: the body buffer
+
+After fix b5f5b38 the body is read with `Vec::with_capacity(length.min(MAX_BODY_PREALLOCATION)).limit(length)`:
+at most 1 MiB is reserved on the word of the header, the rest grows (amortised doubling, `growCap`) with the bytes
+that really arrive.  `readBody length avail` is that loop for a header announcing `length` bytes when `avail` bytes
+arrive before EOF; it returns (bytes read, complete?, largest capacity the buffer ever had). -/
+
+/-- The model's preallocation constant is the one extracted from `scylla-cql/src/frame/mod.rs` on this run. -/
+theorem body_prealloc_is_source : MAX_BODY_PREALLOCATION = ScyllaVerif.Generated.maxBodyPreallocation := by
+  decide +kernel
+
+/-- Allocation of `read_response_frame` is proportional to the bytes RECEIVED, never to the length announced:
+the capacity of the body buffer never exceeds `1 MiB + 2 · received + 64`, for every header and every EOF point. -/
+theorem alloc_proportional_frame_read (length avail : Nat) :
+    (readBody length avail).2.2 ≤ MAX_BODY_PREALLOCATION + 2 * (readBody length avail).1 + 64 ∧
+    (readBody length avail).1 ≤ avail :=
+  readBody_alloc length avail
+
+/-- … in particular in terms of what the peer sent. -/
+theorem alloc_proportional_frame_read_sent (length avail : Nat) :
+    (readBody length avail).2.2 ≤ 2 * avail + (2 ^ 20 + 64) := by
+  have h := readBody_alloc length avail
+  simp only [MAX_BODY_PREALLOCATION] at h
+  omega
+
+/-- non-vacuity: the header of the reproducer (`84 00 0000 02 ffffffff`, then EOF) reserves exactly 1 MiB (before the
+fix: 4 GiB); a 3 MiB announcement of which 2.5 MiB arrive reaches 4 MiB by doubling twice. -/
+example : (readBody 0xFFFFFFFF 0).2.2 = 2 ^ 20 := readBody_huge_header_eof
+example : readBody (3 * 2 ^ 20) (5 * 2 ^ 19) = (5 * 2 ^ 19, false, 4 * 2 ^ 20) := by decide +kernel
+example : readBody 70000 70000 = (70000, true, 70000) := by decide +kernel
 
 /-- The whole pipeline on an uncompressed connection: `allocReq ≤ K · bs.length + K₀` with `K = 2`, `K₀ = 131070`. -/
 theorem alloc_proportional (f : Features) (cached : Option ResultMeta) (bs : Bytes) (uni : List (Bytes × UCls)) :
